@@ -365,7 +365,8 @@ def classify(record, verdict):
 
 def model_check(ctx):
     if ctx.quick:
-        ctx.mc("Place", "MC_Place_q.cfg", label="all systems volume(6 cells)+2 objects, <=2 constraints of 38, 4 static-spec combinations: scheduled run + all per-iteration constraint orders")
+        ctx.mc("Place", "MC_Place_q.cfg", label="all systems volume(6 cells)+2 objects without static specs, <=2 constraints of 38: scheduled run + all per-iteration constraint orders")
+        ctx.mc("Place", "MC_Place_q1.cfg", label="all 15 static-spec combinations (grid/real shape, real position) x <=1 constraint of 38")
     else:
         ctx.mc("Place", "MC_Place_t.cfg", label="1 axis, all 15 static-spec combinations, <=2 constraints of 38")
         ctx.mc("Place", "MC_Place_t2.cfg", label="2 axes 6x4 incl. cross-axis size and 2-axis constraints, <=2 constraints of 59")
